@@ -150,7 +150,7 @@ Fixpoint fa_resume (fuel : nat) (ffuel : nat) (mk_room : bool) (r : fa) : fa * r
       | GOk =>
           let '(r2, fr) := fa_fill ffuel r1 in
           match fr with
-          | FillErr k => (set_st r2 FFinished, RsErr (FaIo k))   (* the error is final *)
+          | FillErr k => (set_st (set_buf r2 []) FFinished, RsErr (FaIo k))   (* the error is final, the incomplete buffer is dropped *)
           | FillFuel => (r2, RsFuel)
           | FillOk _ =>
               let '(r3, sr) := fa_search r2 in
@@ -375,7 +375,7 @@ Definition fa_seek (ffuel : nat) (r : fa) (line byte_ : nat) : fa * fa_out :=
                                                          FPositioned) 0) 0) [] in
         let '(r1, fr) := fa_fill ffuel r in
         match fr with
-        | FillErr k => (set_st r1 FFinished, OErr (FaIo k))   (* the buffer is unusable: the error is final *)
+        | FillErr k => (set_st (set_buf r1 []) FFinished, OErr (FaIo k))   (* the error is final, the incomplete buffer is dropped *)
         | FillFuel => (r1, OFuel)
         | FillOk _ => (r1, OOk)
         end
